@@ -516,6 +516,10 @@ func (s *Scope) evalIndex(e *Expr) *Val {
 		if mt, ok := a.Ty.Underlying().(*types.Map); ok {
 			_, k := s.coerceTo(i, mt.Key())
 			pres, vals, _, _, _, _ := c.mapMems(s.st, mt)
+			c.groundFrames(pres, a.T)
+			for _, va := range vals {
+				c.groundFrames(va, a.T)
+			}
 			has := Select(Select(pres, a.T), k.T)
 			var ts []Term
 			for _, va := range vals {
